@@ -428,6 +428,19 @@ Definition hits (pt : option (nat * Z)) (l : list (nat * Z)) : bool :=
   | Some (sid, a) => existsb (fun c => Nat.eqb (fst c) sid && Z.eqb (snd c) a) l
   end.
 
+(** the events of a position up to and including the call that panics (what is logged of an
+    element whose closure unwinds) *)
+Fixpoint cut_panic (pt : option (nat * Z)) (l : list (event Z)) : list (event Z) :=
+  match l with
+  | [] => []
+  | ECall id a :: r =>
+      match pt with
+      | Some (sid, pa) => if Nat.eqb id sid && Z.eqb a pa then [ECall id a] else ECall id a :: cut_panic pt r
+      | None => ECall id a :: cut_panic pt r
+      end
+  | e :: r => e :: cut_panic pt r
+  end.
+
 Definition shift_res (k : nat) (r : result) : result :=
   match r with
   | ROptIx (Some (i, v)) => ROptIx (Some ((k + i)%nat, v))
@@ -491,7 +504,8 @@ Definition exec0 (c : case) : obs :=
                             (run n known stop panics (m_dospawn r) (m_nextc r) (init (m_c0 r)) (c_sched c)) in
             (ws s, all_doneb s, any_dead s) in
         let res := if done && negb dead then finish t pe n (kind_of p) wl else RPanic in
-        let wlog := if is_find t then map (w_calls_find pe) wl else map (w_calls_full pe) wl in
+        let pel := fun i => cut_panic pt (pe i) in
+        let wlog := if is_find t then map (w_calls_find pel) wl else map (w_calls_full pel) wl in
         mkObs res params (kind_of (ps_par st0)) (ps_clog st0) (ps_consumed st0) (late :: wlog)
               (length wl) (map csize wl) (map pulls wl) false (map seen wl) done (Some r)
     end.
